@@ -1888,6 +1888,9 @@ impl<'a> Socket<'a> {
             control = TcpControl::None;
         }
 
+        // Whether to answer with a (rate-limited) challenge ACK once the segment is processed.
+        let mut reply_challenge_ack = false;
+
         // Validate and update the state.
         match (self.state, control) {
             // RSTs are not accepted in the LISTEN state.
@@ -2057,8 +2060,9 @@ impl<'a> Socket<'a> {
                     self.tuple = None;
                 } else if ack_len == 0 {
                     // Duplicate ACK; our FIN has not been acknowledged.
-                    // Per RFC 9293 (3.10.7.4), send a challenge ACK.
-                    return self.challenge_ack_reply(cx, ip_repr, repr);
+                    // Per RFC 9293 (3.10.7.4), send a challenge ACK; but still process
+                    // the segment, or a window update would never be seen in this state.
+                    reply_challenge_ack = true;
                 }
                 // Partial ACK: fall through to advance SND.UNA normally.
             }
@@ -2225,6 +2229,9 @@ impl<'a> Socket<'a> {
 
         let payload_len = payload.len();
         if payload_len == 0 {
+            if reply_challenge_ack {
+                return self.challenge_ack_reply(cx, ip_repr, repr);
+            }
             return None;
         }
 
